@@ -17,12 +17,12 @@ Lemma xml_diags_complete cfg fz e xd m : xml_diags cfg fz e = Ok xd -> c_encodin
 Proof.
   unfold xml_diags, xml_rule. intros H He R. rewrite He in H. cbn [negb] in H. cbv iota in H.
   apply obind_ok in H. destruct H as [r [Hr H]].
-  unfold xml_check in Hr. destruct (existsb is_surrogate (me_msgid e)); [discriminate|]. inversion Hr; subst. clear Hr.
+  unfold xml_check in Hr. inversion Hr; subst. clear Hr.
   destruct R as [[R1 R2]|[R1 [R2 [R3 R4]]]].
   - rewrite R1, R2 in H. inversion H. left. reflexivity.
   - rewrite R1, R2 in H. apply is_nil_false in R3. rewrite R3 in H.
     apply obind_ok in H. destruct H as [r2 [Hr2 H]].
-    unfold xml_check in Hr2. destruct (existsb is_surrogate (me_msgstr e)); [discriminate|]. inversion Hr2; subst.
+    unfold xml_check in Hr2. inversion Hr2; subst.
     rewrite R4 in H. inversion H. left. reflexivity.
 Qed.
 
